@@ -360,7 +360,11 @@ class Adapter(object):
       data = rb.flow_mod(self._match(f["m"], f["sp"]), cookie=self.cookie[f["cookie"]],
                          command=CMDS[f["cmd"]], idle=f["idle"] * self.scale,
                          hard=f["hard"] * self.scale, priority=self.prio[f["prio"]],
-                         out_port=rb.OFPP_NONE if f["outp"] == 0 else f["outp"],
+                         # out_port is a filter of the DELETE commands only; ADD and the MODIFY commands ignore it
+                         # (OpenFlow 1.0 5.3.3), so for those it carries whatever the sender left there
+                         out_port=(f["outp"] if f["outp"] != 0 else
+                                   rb.OFPP_NONE if f["cmd"] in ("DEL", "DELS") else
+                                   (rb.OFPP_NONE, 3, 77, 4)[self.xid % 4]),
                          flags=flags, actions=ACTS[f["acts"]], xid=self.xid)
       msgs = self._pox(self.h.send, data)
     elif a == "Packet":
